@@ -53,22 +53,22 @@ Proof.
     + rewrite mark_ready_eq in H. cbv zeta in H. rewrite get_slot_set_slot in H by lia. cbn [s_data s_len] in H.
       set (data' := copy_buf (s_data (get_slot r i)) 1 (r_len f) (r_buf f)) in *.
       assert (Bd : (length data' <= MAXLEN)%nat) by (apply copy_buf_length; unfold get_slot; apply (Forall_znth (fun s => (length (s_data s) <= MAXLEN)%nat)); auto).
-      injection H as <- <- <-. autorewrite with rxs. rewrite zset_zset. split; [apply Forall_zset; auto|].
+      match type of H with (?a, _, ?c) = _ => set (AA := a) in H; set (CC := c) in H end; injection H as E1 E2 E3; subst r1 ev idx; subst AA CC. autorewrite with rxs. rewrite zset_zset. split; [apply Forall_zset; auto|].
       intros Hlt. destruct (Z.of_nat (length data') >=? s_len (get_slot r i)) eqn:Er; [|lia].
       rewrite !get_slot_set_slot by (autorewrite with rxs; lia). cbn [s_len s_data].
       apply Z.geb_le in Er. unfold MAXLEN in Bd. lia.
-    + injection H as <- <- <-. autorewrite with rxs. split; [|lia]. apply Forall_zset; auto. cbn [free_slot s_data]. unfold get_slot; apply (Forall_znth (fun s => (length (s_data s) <= MAXLEN)%nat)); auto.
+    + match type of H with (?a, _, ?c) = _ => set (AA := a) in H; set (CC := c) in H end; injection H as E1 E2 E3; subst r1 ev idx; subst AA CC. autorewrite with rxs. split; [|lia]. apply Forall_zset; auto. cbn [free_slot s_data]. unfold get_slot; apply (Forall_znth (fun s => (length (s_data s) <= MAXLEN)%nat)); auto.
   - destruct (find_free_slot r (fpgn f) (fsrc f) (fdst f) false) as [slots1 i] eqn:FF.
     assert (B1 : Forall (fun s => (length (s_data s) <= MAXLEN)%nat) slots1).
     { replace slots1 with (fst (find_free_slot r (fpgn f) (fsrc f) (fdst f) false)) by (rewrite FF; reflexivity). apply find_free_slot_forall; auto. }
     destruct (find_free_slot_range _ _ _ _ _ _ _ FF) as [Hi0 L1].
     destruct (i <? nslots r) eqn:Hi.
-    2:{ injection H as <- <- <-. cbn [r_slots with_slots]. split; [auto|]. apply Z.ltb_ge in Hi. unfold nslots in *. cbn [r_slots with_slots]. lia. }
+    2:{ match type of H with (?a, _, ?c) = _ => set (AA := a) in H; set (CC := c) in H end; injection H as E1 E2 E3; subst r1 ev idx; subst AA CC. cbn [r_slots with_slots]. split; [auto|]. apply Z.ltb_ge in Hi. unfold nslots in *. cbn [r_slots with_slots]. lia. }
     apply Z.ltb_lt in Hi. unfold nslots in Hi.
     rewrite mark_ready_eq in H. cbv zeta in H. rewrite get_slot_set_slot in H by (unfold nslots; cbn [r_slots with_slots]; lia). cbn [s_data s_len] in H.
     set (data' := copy_buf [] (if fast then 2 else 0) (r_len f) (r_buf f)) in *.
     assert (Bd : (length data' <= MAXLEN)%nat) by (apply copy_buf_length; cbn; lia).
-    injection H as <- <- <-. autorewrite with rxs. cbn [r_slots with_slots]. rewrite zset_zset. split; [apply Forall_zset; auto|].
+    match type of H with (?a, _, ?c) = _ => set (AA := a) in H; set (CC := c) in H end; injection H as E1 E2 E3; subst r1 ev idx; subst AA CC. autorewrite with rxs. cbn [r_slots with_slots]. rewrite zset_zset. split; [apply Forall_zset; auto|].
     intros Hlt. match type of Hlt with (if ?c then _ else _) < _ => destruct c eqn:Er end;
       [|unfold nslots in Hlt; cbn [r_slots with_slots] in Hlt; lia].
     rewrite !get_slot_set_slot by (autorewrite with rxs; unfold nslots; cbn [r_slots with_slots]; lia). cbn [s_len s_data].
@@ -132,7 +132,7 @@ Proof.
   rewrite byte_fbyte, Hfirst in H. cbn [negb andb Z.eqb] in H. rewrite FF in H.
   replace (i <? nslots r) with true in H by (symmetry; apply Z.ltb_lt; lia).
   rewrite mark_ready_eq in H. cbv zeta in H. rewrite get_slot_set_slot in H by (unfold nslots in *; cbn [r_slots with_slots]; lia). cbn [s_data s_len] in H.
-  injection H as <- <- <-.
+  match type of H with (?a, _, ?c) = _ => set (AA := a) in H; set (CC := c) in H end; injection H as E1 E2 E3; subst r1 ev idx; subst AA CC.
   rewrite get_slot_set_slot by (autorewrite with rxs; unfold nslots in *; cbn [r_slots with_slots]; lia).
   cbn [s_data s_len s_last s_pri s_free]. rewrite !byte_fbyte. rewrite (copy_buf_first 2) by lia.
   repeat split; auto using fpri_land.
@@ -147,7 +147,7 @@ Proof.
   rewrite !byte_fbyte in H. replace (Z.land (fbyte f 0) 31 =? 0) with false in H by (symmetry; apply Z.eqb_neq; exact Hnf). cbn [negb andb] in H.
   rewrite <- Hi in H. replace (i <? nslots r) with true in H by (symmetry; apply Z.ltb_lt; lia).
   replace (s_last (get_slot r i) + 1 =? fbyte f 0) with false in H by (symmetry; apply Z.eqb_neq; exact Hseq).
-  injection H as <- <- <-.
+  match type of H with (?a, _, ?c) = _ => set (AA := a) in H; set (CC := c) in H end; injection H as E1 E2 E3; subst r1 ev idx; subst AA CC.
   pose proof (find_cont_spec (fpgn f) (fsrc f) (fdst f) (r_slots r) 0) as FC. cbv zeta in FC. rewrite <- Hi in FC. destruct FC as (Fr & Fm & Fb).
   rewrite Z.sub_0_r, Z.add_0_l in *.
   rewrite get_slot_set_slot by lia. cbn [free_slot s_free s_pgn s_len].
